@@ -124,3 +124,99 @@ Theorem C05_without_barrier_refuted :
     (j < i)%nat /\ is_write_at tr j = true /\ present j = false.
 Proof. exact no_barrier_refuted. Qed.
 Print Assumptions C05_without_barrier_refuted.
+
+(* ---------------------------------------------------------------------------
+   Crash consistency of the persistence round itself (StoreOps is the faithful,
+   step-by-step model of Store.persist / compact / persistFooter tied to the real
+   code by the `ops` family; StoreCrash restates one round as a straight-line
+   program of primitive state changes, proves that program equal to
+   persister_round, and takes a crash point after every primitive — plus the torn
+   state inside the creation of a file).  A crash image of the directory is any
+   image the file system may leave: with NoSync (process kill) exactly what was
+   written; otherwise (power failure) footers not yet followed by a sync may be
+   missing, kept footers read as written (the barrier theorem above), files with a
+   surviving footer exist with their header.
+   --------------------------------------------------------------------------- *)
+From Moss Require Import StoreOps StoreOpsFacts StoreCrash StoreCrashFacts.
+Close Scope N_scope.
+Open Scope nat_scope.
+
+(* the straight-line program IS the round of the tied model *)
+Theorem C05_round_program_is_the_round :
+  forall o fo n k st, l_cur st = s_cur st ->
+    round_end o fo n k st = fst (persister_round o fo n k st).
+Proof. exact round_prog_correct. Qed.
+Print Assumptions C05_round_program_is_the_round.
+
+(* every crash point of every round of every history, every legal image: the store
+   that reopens serves what was served before the interrupted attempt, extended by a
+   prefix of what had been handed to the persister — or, when nothing had ever been
+   committed, is empty / refuses to open (F5) *)
+Theorem C05_crash_anywhere_reopens_a_prefix :
+  forall o fo ks r j s img,
+    (forall i, i < r -> rm_stat_ok fo i) ->
+    crash_state o fo ks r j = Some s ->
+    crash_image true o s img ->
+    let st := reachable o fo (firstn r ks) in
+    crash_ok (o_file (cur st) = None) (o_content (cur st))
+             (pending (handed r (nth r ks RNoop) st)) (reopen_image s img).
+Proof. exact crash_prefix_consistent. Qed.
+Print Assumptions C05_crash_anywhere_reopens_a_prefix.
+
+(* a round that reported success survives every later crash *)
+Theorem C05_committed_round_survives_every_later_crash :
+  forall o fo ks1 k ks2 kc j s img,
+    let ks := ks1 ++ k :: ks2 in
+    let r := length ks in
+    (forall i, i < r -> rm_stat_ok fo i) ->
+    k <> RNoop ->
+    let oc := snd (persister_round o fo (length ks1) k (reachable o fo ks1)) in
+    ro_error oc = false ->
+    crash_state o fo (ks ++ [kc]) r j = Some s ->
+    crash_image true o s img ->
+    exists t d,
+      reopen_image s img = ReopenServes t d /\
+      prefix (o_content (cur (reachable o fo (ks1 ++ [k])))) (d_content d) /\
+      incl (ro_handed oc) (d_content d) /\
+      prefix (d_content d) (pending (handed r kc (reachable o fo ks))).
+Proof. exact committed_round_survives. Qed.
+Print Assumptions C05_committed_round_survives_every_later_crash.
+
+(* the hypotheses that cannot be dropped, each with a computed witness *)
+Theorem C05_crash_before_first_commit_refuted_F5 :
+  forall o, o = opts0 \/ o = opts_nosync ->
+  exists ks fo r j img,
+    (forall i, rm_stat_ok fo i) /\
+    o_file (cur (reachable o fo (firstn r ks))) = None /\
+    crash_at o fo ks r j (fun s =>
+      crash_image true o s img /\ reopen_image s img = ReopenError).
+Proof. exact crash_before_first_commit_refuted. Qed.
+Print Assumptions C05_crash_before_first_commit_refuted_F5.
+
+(* F30: after a failed clean-up (the unlink of the abandoned newer file failed) a
+   crash image can reopen the abandoned file: [0;1;3] was served, [0;1] comes back *)
+Theorem C05_crash_after_failed_cleanup_refuted_F30 :
+  exists o ks fo r j img,
+    (forall i, i <> 1 -> rm_stat_ok fo i) /\
+    map ro_error (snd (run o fo 0 ks init)) = [false; true; false; false] /\
+    o_content (cur (reachable o fo (firstn r ks))) = [0; 1; 3] /\
+    crash_at o fo ks r j (fun s =>
+      crash_image true o s img /\
+      reopen_image s img = ReopenServes 1 {| d_id := 2; d_content := [0; 1] |}) /\
+    ~ prefix [0; 1; 3] [0; 1].
+Proof. exact crash_after_failed_cleanup_refuted. Qed.
+Print Assumptions C05_crash_after_failed_cleanup_refuted_F30.
+
+(* outside the stated crash model (observation O2): moss never syncs the directory;
+   if a power failure may undo an unlink that was issued, one failed mmap is enough *)
+Theorem C05_crash_with_undone_unlink_refuted_O2 :
+  exists o ks fo r j img,
+    (forall i, rm_stat_ok fo i /\ rm_old_stat_ok fo i) /\
+    map ro_error (snd (run o fo 0 ks init)) = [false; true; false; false] /\
+    o_content (cur (reachable o fo (firstn r ks))) = [0; 1; 3] /\
+    dir_of (reachable o fo (firstn r ks)) = [0] /\
+    crash_at o fo ks r j (fun s =>
+      crash_image_undo s img /\
+      reopen_image s img = ReopenServes 1 {| d_id := 2; d_content := [0; 1] |}).
+Proof. exact crash_with_undone_unlink_refuted. Qed.
+Print Assumptions C05_crash_with_undone_unlink_refuted_O2.
